@@ -11,6 +11,7 @@ Reading guide
 import EPV.Lemmas.USetOps
 import EPV.Lemmas.USetCompl
 import EPV.Lemmas.USetExt
+import EPV.Lemmas.USetIcp
 namespace EPV.C13
 open EPV.USet
 
@@ -161,6 +162,54 @@ theorem removal_ops_canon (l : List CP) (hc : Canon l) :
   · simp only [iand, foldl_discard_one]
     apply foldl_discard_canon _ _ l hc
     intro v hv; obtain ⟨n, _, rfl⟩ := List.mem_map.mp hv; simp
+
+/-- `iter_code_points` (used by `update`, `difference_update`, `|=`/`-=` with plain iterables and the
+`str`/iterable constructor): whatever the order and overlaps of the input entries, the merged output
+denotes their union and consists of non-empty entries. -/
+theorem iter_code_points_mem (reverse : Bool) (o : List CP) (ho : AllValid o) :
+    AllValid (iterCodePoints reverse o) ∧ ∀ x, memL x (iterCodePoints reverse o) ↔ memL x o :=
+  ⟨iterCodePoints_allValid reverse o ho, iterCodePoints_mem reverse o ho⟩
+
+/-- **`update(iterable)` is union and `difference_update(iterable)` is difference**, for ANY list of
+valid entries (unsorted, overlapping, repeated), and both keep the representation invariant.
+The same statement covers `|=` / `-=` with a plain iterable operand (`iorList`, `isubList`). -/
+theorem update_refines (l o : List CP) (hw : WInv l) (ho : AllValid o) :
+    (WInv (update l o) ∧ ∀ x, memL x (update l o) ↔ (memL x l ∨ memL x o)) ∧
+    (WInv (differenceUpdate l o) ∧ ∀ x, memL x (differenceUpdate l o) ↔ (memL x l ∧ ¬ memL x o)) := by
+  have hv := iterCodePoints_allValid true o ho
+  have hm := iterCodePoints_mem true o ho
+  obtain ⟨a1, a2⟩ := foldl_add _ hv l hw
+  obtain ⟨d1, d2⟩ := foldl_discard _ hv l hw
+  refine ⟨⟨a1, fun x => ?_⟩, ⟨d1, fun x => ?_⟩⟩
+  · simp only [update, a2 x, ← memL_iff_exists, hm x]
+  · simp only [differenceUpdate, d2 x, ← memL_iff_exists, hm x]
+
+/-- `&=` with a plain iterable operand is intersection -/
+theorem iand_list_refines (l o : List CP) (hw : WInv l) (ho : AllValid o) :
+    WInv (iandList l o) ∧ ∀ x, memL x (iandList l o) ↔ (memL x l ∧ memL x o) := by
+  obtain ⟨⟨_, _⟩, ⟨d1, d2⟩⟩ := update_refines l o hw ho
+  have hv : AllValid ((iter (differenceUpdate l o)).map CP.one) := by
+    intro v hv; obtain ⟨n, _, rfl⟩ := List.mem_map.mp hv; simp
+  obtain ⟨h3, h4⟩ := foldl_discard _ hv l hw
+  simp only [iandList, foldl_discard_one]
+  refine ⟨h3, fun x => ?_⟩
+  rw [h4 x]
+  have hi : ∀ n, n ∈ iter (differenceUpdate l o) ↔ (memL n l ∧ ¬ memL n o) := by
+    intro n; rw [mem_iter, d2 n]
+  constructor
+  · rintro ⟨hl, hne⟩
+    refine ⟨hl, ?_⟩
+    apply Classical.byContradiction
+    intro hno
+    exact hne ⟨.one x, List.mem_map.mpr ⟨x, (hi x).mpr ⟨hl, hno⟩, rfl⟩, by simp [CP.mem]⟩
+  · rintro ⟨hl, ho'⟩
+    refine ⟨hl, ?_⟩
+    rintro ⟨v, hv', hx⟩
+    obtain ⟨n, hn, rfl⟩ := List.mem_map.mp hv'
+    simp only [CP.mem, CP.lo_one, CP.hi_one] at hx
+    have : n = x := by omega
+    subst this
+    exact ((hi n).mp hn).2 ho'
 
 /-- F13d witness: `^=` with a plain list whose entries overlap toggles the overlap twice, so the
 result is not the symmetric difference with the operand's set `{1..6}` (3 and 4 stay members).
